@@ -15,7 +15,7 @@ OPTION_VALUES = {
                                           "http://h3/z"]],
     "private": [None, True],
     "source": [None, "src"],
-    "comment": [None, "a comment"],
+    "comment": [None, "a comment", "2024"],
     "piece-length": [None, "15", "32768"],
 }
 OPT_ORDER = list(OPTION_VALUES)
@@ -127,7 +127,9 @@ class OptionsCheck:
             "for one-element lists, `private = True`, explicit `private = "
             "false` / `align = false` for switched-off booleans; C = list "
             "entries separated by blank lines, list keys present but empty "
-            "when the option is not given",
+            "when the option is not given; D = style A written to "
+            "./torrentfile.ini and found through the working directory "
+            "(no --config-path)",
             "one two-file payload; values per option from a small alphabet",
             "CLI orders: every permutation and every content-path position "
             "for subsets of <= 3 flags; canonical, reversed and rotated "
@@ -234,10 +236,31 @@ class OptionsCheck:
                 elif style == "B":
                     lines.append("align = false")
                 lines.append(f"out = {outarg}")
-                with open(cfg, "w") as f:
-                    f.write("\n".join(lines) + "\n")
-                tf.execute(["create", "--config", "--config-path", cfg,
-                            "--prog", "0", root])
+                if style == "D":
+                    # the default location ./torrentfile.ini, found through the
+                    # current directory at the time of the call (HOME points
+                    # into the sandbox so that no real file is picked up)
+                    cfgdir = os.path.join(outdir, "workdir")
+                    os.mkdir(cfgdir)
+                    cfg = os.path.join(cfgdir, "torrentfile.ini")
+                    with open(cfg, "w") as f:
+                        f.write("\n".join(lines) + "\n")
+                    oldhome = os.environ.get("HOME")
+                    os.environ["HOME"] = outdir
+                    os.chdir(cfgdir)
+                    try:
+                        tf.execute(["create", "--config", "--prog", "0", root])
+                    finally:
+                        os.chdir(sandbox)
+                        if oldhome is None:
+                            os.environ.pop("HOME", None)
+                        else:
+                            os.environ["HOME"] = oldhome
+                else:
+                    with open(cfg, "w") as f:
+                        f.write("\n".join(lines) + "\n")
+                    tf.execute(["create", "--config", "--config-path", cfg,
+                                "--prog", "0", root])
         except BaseException as e:  # noqa
             return ("raised:" + type(e).__name__, str(e)[:100])
         finally:
@@ -291,7 +314,8 @@ class OptionsCheck:
                 continue
             check = expected_fields(opts, version, align)
             outs = {}
-            for route in ("kw", "cli", "config", "config-B", "config-C"):
+            for route in ("kw", "cli", "config", "config-B", "config-C",
+                          "config-D"):
                 outs[route] = self.run_route(
                     route.split("-")[0], opts, version, align, outform, root,
                     sandbox, style=route[-1] if "-" in route else "A")
@@ -318,7 +342,8 @@ class OptionsCheck:
                                   dict(case, route=route), optnames)
                 res.outcomes["ok" if not probs else probs[0]] += 1
             if "kw" in metas:
-                for route in ("cli", "config", "config-B", "config-C"):
+                for route in ("cli", "config", "config-B", "config-C",
+                              "config-D"):
                     if route in metas and metas[route] != metas["kw"]:
                         diff = sorted(
                             k.decode() for k in set(metas[route]) | set(
@@ -368,7 +393,7 @@ class OptionsCheck:
                                    sandbox)
         route = case["route"]
         style = "A"
-        if route in ("config-B", "config-C"):
+        if route in ("config-B", "config-C", "config-D"):
             route, style = "config", route[-1]
         argv = None
         if route == "cli-order":
